@@ -22,6 +22,7 @@ PROPS = {
     "C03": ["contracts.c03_typechecker", "contracts.c06_constructors"],
     "C06": ["contracts.c06_constructors"],
     "C12": ["contracts.c12_oracles"],
+    "C13": ["contracts.c13_logics"],
 }
 
 
